@@ -51,10 +51,12 @@ Qed.
 Lemma witness_wavelengths : cfg_le R_ops witness = false.
 Proof. unfold cfg_le. cbn. destruct (Rle_dec 1550 775); [exfalso; lra | reflexivity]. Qed.
 
-(* the composed model panics on the witness *)
-Theorem F7b_composed_panics minpos : try_as_spdc_now R_ops UR KW minpos witness = Panic SiteNelderMeadUnwrap.
+(* the composed model's outcome on the witness: the panic of F7b while try_as_spdc does not check the external angle
+   (cfg_checks_total_reflection = false, read off the source), the error the property asks for once it does *)
+Theorem F7b_composed_outcome minpos :
+  try_as_spdc_now R_ops UR KW minpos witness = if cfg_checks_total_reflection then Err ETotalReflection else Panic SiteNelderMeadUnwrap.
 Proof.
-  apply (tir_panics_composed index2 snell_id sd_stop sd_stop UR minpos witness witness_signal).
+  apply (tir_outcome_composed index2 snell_id sd_stop sd_stop UR minpos witness witness_signal).
   - exact witness_wavelengths.
   - exact witness_signal_step.
   - reflexivity.
@@ -62,19 +64,25 @@ Proof.
   - exact witness_beyond_tir.
 Qed.
 
-(* REFUTED: never panics given only a total Snell inverse (C17_no_panic_composed as it stood before the guards) *)
+Theorem F7b_composed_panics minpos :
+  cfg_checks_total_reflection = false -> try_as_spdc_now R_ops UR KW minpos witness = Panic SiteNelderMeadUnwrap.
+Proof. intros Hf. rewrite F7b_composed_outcome, Hf. reflexivity. Qed.
+
+(* REFUTED while the code does not check: never panics given only a total Snell inverse (C17_no_panic_composed as it stood before
+   the guards) *)
 Theorem F7b_no_panic_composed_refuted :
+  cfg_checks_total_reflection = false ->
   ~ (forall index_of snell_inv sd_theta sd_period U minpos (c : spdc_cfg R),
        (forall b e cs, snell_inv b e cs <> None) ->
        is_panic (try_as_spdc_now R_ops U (oracles_of_model index_of snell_inv sd_theta sd_period) minpos c) = false).
 Proof.
-  intros H. specialize (H index2 snell_id sd_stop sd_stop UR 0 witness).
-  fold KW in H. rewrite F7b_composed_panics in H. cbn in H.
+  intros Hf H. specialize (H index2 snell_id sd_stop sd_stop UR 0 witness).
+  fold KW in H. rewrite (F7b_composed_panics 0 Hf) in H. cbn in H.
   assert (Hs : forall b e cs, snell_id b e cs <> None) by (intros; discriminate).
   specialize (H Hs). discriminate H.
 Qed.
 
-(* the hypothesis that C17_no_panic_composed now carries is false on the witness *)
+(* the hypothesis that C17_no_panic_composed carries (while the code does not check) is false on the witness *)
 Theorem F7b_hypothesis_fails : ~ no_total_internal_reflection index2 snell_id sd_stop sd_stop witness.
 Proof.
   intros H. specialize (H witness_signal witness_signal_step eq_refl eq_refl).
